@@ -183,3 +183,7 @@ def contents_as_old(x):
 
 def ufvt(name, spec, *args):
     return _UF[name](*args)
+
+
+def gather_calls():
+    return 0
